@@ -503,8 +503,21 @@ def run_check(prop, tier, cfg):
         groups = {}
         for v in violations:
             groups.setdefault((v["label"], v["where"]), []).append(v)
-        for key, members in groups.items():
+        # natively replayable representatives first; after `max_replays` groups, once a violation is confirmed, the
+        # remaining failing obligations are listed without a replay of their own (each replay is a Kani
+        # concrete-playback run plus two native test builds: minutes, and a broken tree fails dozens of obligations)
+        max_replays = int(os.environ.get("VERIF_MAX_REPLAYS", "4") or 4)
+        order = sorted(groups.items(), key=lambda kv: 0 if native_replayable(kv[1][0]["harness"]) else 1)
+        also_failing = []
+        for n_done, (key, members) in enumerate(order):
+            if (n_done >= max_replays and confirmed) or n_done >= 3 * max_replays:
+                also_failing += members
+                continue
             rep_v = members[0]
+            for m_ in members:  # prefer a natively replayable member of the group as its representative
+                if native_replayable(m_["harness"]):
+                    rep_v = m_
+                    break
             if not native_replayable(rep_v["harness"]):
                 rep, path, note = replay(ov, prop, rep_v, extra, native=False)
             else:
@@ -513,6 +526,10 @@ def run_check(prop, tier, cfg):
                 v["replay"] = path
                 v["replay_note"] = note + ("" if v is rep_v else f" (representative: {rep_v['harness']})")
                 (confirmed if rep else unconfirmed).append(v)
+        if also_failing:
+            log(f"{prop} {tier}: {len(also_failing)} further failing obligation(s) in {len({v['harness'] for v in also_failing})} harness(es) not replayed individually:")
+            for lab in sorted({v["label"] for v in also_failing})[:12]:
+                log(f"  also failing: {lab}")
         for f in findings:
             log(f"KNOWN-FINDING: property={f['property']} {f.get('what') or f['label']} [{f['harness'].rsplit('::',1)[-1]}]")
         for v in confirmed:
@@ -565,6 +582,7 @@ def run_check(prop, tier, cfg):
                 stubs=cfg.get("stubs", []),
                 known_findings=[dict(label=f["label"], harness=f["harness"]) for f in findings],
                 inconclusive=inconcl, retried_after_timeout=retried,
+                failing_not_replayed=sorted({v["label"] for v in also_failing})[:40],
                 trusted_base=cfg.get("trusted_base", ["rustc->Kani->goto-program translation", "CBMC 6.11 + CaDiCaL",
                                                         "overlay edits O1-O4 (DESIGN.md 2.1)"]),
             ),
